@@ -60,3 +60,22 @@ let () =
             (show_flat n n st.iup (take st.iuh st.iuc) (take st.iuh st.iuv))
             (show_varr st.idd))
       (LowLevel2I.ll_ilu0 sc f))
+
+(* skyline_lu<V> (ordering cuthill_mckee<false>): the permutation comes from the extracted model of the
+   ordering (CuthillMcKee.v, tied by C16); constructor tables, then one solve into x0 with scratch y = 0 *)
+let () =
+  reg "ll_skyline" (fun t ->
+    let a = t_crs t in let rhs = t_vec t in let x0 = t_vec t in
+    let pattern = List.map (List.map fst) a.Crs.rows in
+    match CuthillMcKee.cuthill_mckee false pattern with
+    | CuthillMcKee.CmOk perm ->
+      show_res (function
+          | LowLevel2K.KThrow -> "EXC zero_pivot"
+          | LowLevel2K.KOk (pm, ptr, l, u, d) ->
+            let n = List.length a.Crs.rows in
+            let y0 = filled (List.init n (fun _ -> sc.Scalar.s0)) in
+            let head = Printf.sprintf "perm=%s ptr=%s L=%s U=%s D=%s" (show_iarr pm) (show_zarr ptr) (show_varr l) (show_varr u) (show_varr d) in
+            head ^ " " ^ show_res (fun (x, y) -> Printf.sprintf "x=%s y=%s" (show_varr x) (show_varr y))
+              (LowLevel2K.ll_sky_solve sc n pm ptr l u d rhs (filled x0) y0))
+        (LowLevel2K.ll_sky_build sc (LowLevelT.flat_of sc a) perm)
+    | _ -> "EXC ordering")
